@@ -140,6 +140,8 @@ Proof.
     + intros k Hk; split; auto; discriminate.
   - repeat match type of H with (if ?b then _ else _) = _ => destruct b end; inv_some H;
       (apply pinv_move with (s := s) (w := w); auto; try reflexivity; rewrite ?Epc; cbn; auto; intros k Hk; split; auto; discriminate).
+  - repeat match type of H with (if ?b then _ else _) = _ => destruct b end; inv_some H;
+      (apply pinv_move with (s := s) (w := w); auto; try reflexivity; rewrite ?Epc; cbn; auto; intros k Hk; split; auto; discriminate).
   - inv_some H. apply pinv_move with (s := s) (w := w); auto; try reflexivity; rewrite ?Epc; cbn; auto. intros k Hk; split; auto; discriminate.
   - (* WSerial *)
     destruct (_ <? _)%N; [inv_some H|destruct (negb _); inv_some H].
